@@ -895,6 +895,7 @@ func main() {
 	txnOut := flag.String("txn", "", "output Lean file: translated transaction decision logic")
 	wmOut := flag.String("wm", "", "output Lean file: translated watermark message handler")
 	levelOut := flag.String("level", "", "output Lean file: translated discardStaleEntries")
+	dbOut := flag.String("db", "", "output Lean file: translated DB.search")
 	flag.Parse()
 	if *locktable != "" {
 		genLockTable(*repo, *locktable)
@@ -913,6 +914,9 @@ func main() {
 	}
 	if *levelOut != "" {
 		genLevel(*repo, *levelOut)
+	}
+	if *dbOut != "" {
+		genDB(*repo, *dbOut)
 	}
 	if *skeleton != "" {
 		genSkeleton(*repo, *skeleton)
